@@ -63,7 +63,26 @@ def body_E1(ctx):
     _output._DEFAULT_LOGGER = logger
     it = I.Interp(ctx, sh.get("N", 4), sh.get("D", 3), allow_handoff=bool(sh.get("handoff", 1)))
     it.check_context = False
-    it.run()
+    if sh.get("wide"):
+        # one action with many direct children; two of them - at positions p and q, where q's
+        # decimal digits begin with p's - are actions with a child action of their own
+        from eliot import start_action, log_message
+
+        p = 2 + ctx.choose(2, "position of the first child action")
+        q = 10 * p + ctx.choose(3, "position of the second child action - 10p")
+        last = q + ctx.choose(2, "children after it")
+        it.ops.append("wide(p=%d,q=%d,last=%d)" % (p, q, last))
+        with start_action(action_type="t:wide", x=0):
+            for pos in range(2, last + 1):
+                if pos in (p, q):
+                    with start_action(action_type="t:kid", x=pos):
+                        with start_action(action_type="t:grandkid", x=pos):
+                            log_message("t:leaf", x=pos)
+                else:
+                    log_message("t:m", x=pos)
+        it.n_actions = 5
+    else:
+        it.run()
     messages = logger.messages
     tasks = {t.root().task_uuid: t for t in Parser.parse_stream(messages)}
 
@@ -237,6 +256,7 @@ def _shards(tier):
     cfgs = [{"N": 4, "D": 3, "handoff": 1}, {"N": 3, "D": 3, "types": 2, "handoff": 0}, {"N": 3, "D": 3, "handoff": 1, "deferred": 1, "same_side": 1}, {"N": 3, "D": 3, "handoff": 0, "open": 4, "msg": 2}, {"N": 4, "D": 2, "handoff": 0, "open_menu": [0, 5], "types": 1, "same_type_tasks": 1}] if tier == "quick" else [{"N": 5, "D": 4, "handoff": 1}, {"N": 4, "D": 3, "types": 2, "handoff": 1}, {"N": 4, "D": 3, "handoff": 1, "deferred": 1, "same_side": 1}, {"N": 5, "D": 3, "handoff": 0, "open_menu": [0, 5], "same_type_tasks": 1}]
     for base in cfgs:
         out += [dict(base, prefix=q) for q in enumerate_prefixes(body_E1, "X", {}, base, 3)]
+    out.append({"wide": 1, "N": 0, "D": 0, "handoff": 0})
     return out
 
 
@@ -251,7 +271,7 @@ OBLIGATIONS = [
         shards=_shards,
         twin=[{"N": 4, "D": 3, "handoff": 1, "twin_label": "repeated-types"}],
         timeout={"quick": 100, "thorough": 1200},
-        bounds={"quick": "programs <= 4 ops (one action type: every action shares it; raise/hand-off included), and <= 3 ops with 2 solver-chosen types; <= 3 ops with deferred hand-offs (sub-task logged after its parent ended); <= 4 ops mixing start_action and nested start_task of the same action type (interleaved tasks in one logger); depth <= 3; 5 expectation kinds for assertHasAction (matching / wrong status / wrong value / only a later entry matches / a field the message lacks expected to be None)", "thorough": "<= 5 ops depth <= 4; <= 4 ops with 2 types"},
+        bounds={"quick": "one wide action with 21-33 direct children of which two (positions p in {2,3} and q in {10p..10p+2}) are actions with a child action; programs <= 4 ops (one action type: every action shares it; raise/hand-off included), and <= 3 ops with 2 solver-chosen types; <= 3 ops with deferred hand-offs (sub-task logged after its parent ended); <= 4 ops mixing start_action and nested start_task of the same action type (interleaved tasks in one logger); depth <= 3; 5 expectation kinds for assertHasAction (matching / wrong status / wrong value / only a later entry matches / a field the message lacks expected to be None)", "thorough": "<= 5 ops depth <= 4; <= 4 ops with 2 types"},
     ),
     Ob(
         "L1",
